@@ -242,4 +242,73 @@ theorem C01_sub_chain_distinct (ints : String → Int) (a b c : IExp) (hc : c.de
 /-- Non-vacuity: a three-term chain over a parameter. -/
 example : (IExp.sub (IExp.sub (.par "q") (.num 2)) (.num 3)).den (fun _ => 10) = 5 := by decide
 
+/-! ## what the fee and input stages leave alone -/
+
+/-- The fee and the input stage do not touch the expression (no fee placeholder, no input query in it). -/
+def Inert (t : Expr) : Prop := ∀ (f : Int) (ι : InputMap), applyInputs ι (applyFees f t) = t
+
+theorem Inert_leaf (l : Leaf) : Inert (.leaf l) := by intro f ι; simp [applyFees, applyInputs]
+
+theorem Inert_paramValue (x : String) (ty : Ty) : Inert (paramValue x ty) := by
+  intro f ι; simp [paramValue, applyFees, applyInputs]
+
+theorem Inert_builtin2 (b : BKind) {x y : Expr} (hx : Inert x) (hy : Inert y) : Inert (builtin b [x, y]) := by
+  intro f ι
+  simp [builtin, applyFees, applyFeesL, applyInputs, applyInputsL, hx f ι, hy f ι]
+
+theorem Inert_assets3 {p n a : Expr} (hp : Inert p) (hn : Inert n) (ha : Inert a) :
+    Inert (.node .assets [p, n, a]) := by
+  intro f ι
+  simp [applyFees, applyFeesL, applyInputs, applyInputsL, hp f ι, hn f ι, ha f ι]
+
+theorem Inert_builtin1 (b : BKind) {x : Expr} (hx : Inert x) : Inert (builtin b [x]) := by
+  intro f ι
+  simp [builtin, applyFees, applyFeesL, applyInputs, applyInputsL, hx f ι]
+
+/-- Whatever the integer fragment lowers to is inert. -/
+theorem lower_int_inert (s : Scope) (σ : ArgMap) (ints : String → Int) :
+    ∀ (e : IExp), ScopeOf s σ ints e.pars → ∀ (n : Nat) (ctx : Ctx) (t : Expr), lowerE s n ctx e.toL = .ok t → Inert t
+  | .num v, _, n, ctx, t, h => by
+    cases n with
+    | zero => rw [lowerE] at h; cases h
+    | succ n => rw [IExp.toL, lowerE] at h; cases h; exact Inert_leaf _
+  | .par x, hs, n, ctx, t, h => by
+    obtain ⟨⟨ty, hr⟩, _⟩ := hs x (by simp [IExp.pars])
+    cases n with
+    | zero => rw [lowerE] at h; cases h
+    | succ n =>
+      rw [IExp.toL, lowerE] at h
+      by_cases hl : ctx.lvl = 0
+      · simp [hl, lerr] at h
+      · simp only [hl, if_false, hr] at h
+        cases h; exact Inert_paramValue _ _
+  | .add a b, hs, n, ctx, t, h => by
+    cases n with
+    | zero => rw [lowerE] at h; cases h
+    | succ n =>
+      rw [IExp.toL, lowerE] at h
+      obtain ⟨x, hx, h⟩ := Outcome.bind_eq_ok.mp h
+      obtain ⟨y, hy, h⟩ := Outcome.bind_eq_ok.mp h
+      cases h
+      exact Inert_builtin2 _ (lower_int_inert s σ ints a (fun z hz => hs z (by simp [IExp.pars, hz])) n ctx x hx)
+        (lower_int_inert s σ ints b (fun z hz => hs z (by simp [IExp.pars, hz])) n ctx y hy)
+  | .sub a b, hs, n, ctx, t, h => by
+    cases n with
+    | zero => rw [lowerE] at h; cases h
+    | succ n =>
+      rw [IExp.toL, lowerE] at h
+      obtain ⟨x, hx, h⟩ := Outcome.bind_eq_ok.mp h
+      obtain ⟨y, hy, h⟩ := Outcome.bind_eq_ok.mp h
+      cases h
+      exact Inert_builtin2 _ (lower_int_inert s σ ints a (fun z hz => hs z (by simp [IExp.pars, hz])) n ctx x hx)
+        (lower_int_inert s σ ints b (fun z hz => hs z (by simp [IExp.pars, hz])) n ctx y hy)
+  | .neg a, hs, n, ctx, t, h => by
+    cases n with
+    | zero => rw [lowerE] at h; cases h
+    | succ n =>
+      rw [IExp.toL, lowerE] at h
+      obtain ⟨x, hx, h⟩ := Outcome.bind_eq_ok.mp h
+      cases h
+      exact Inert_builtin1 _ (lower_int_inert s σ ints a hs n ctx x hx)
+
 end Tx3.Lang
